@@ -264,6 +264,30 @@ def o_announce(cimp, ctx):
     return probs
 
 
+def o_contain(cimp, ctx):
+    """C04 on projects with generators: no task that reads - directly or through other tasks - what a failed
+    task writes is executed. F31: a task CREATED by a generator after the failure is not marked."""
+    probs = []
+    if cimp["exit"] not in (0, 1):
+        return probs
+    order = [t for t, _ in cimp["reports"]]
+    rep = dict(cimp["reports"])
+    reads, writes = reads_writes(ctx["op"]["tasks"], set(order))
+    failed = [t for t in order if rep[t] == O["FAIL"]]
+    for x in sorted(set(EO._started(cimp))):
+        seen, todo = set(), [x]
+        while todo:
+            y = todo.pop()
+            for u in order:
+                if u not in seen and u != y and writes.get(u, set()) & reads.get(y, set()):
+                    seen.add(u); todo.append(u)
+        bad = [u for u in failed if u in seen and order.index(u) < order.index(x)]
+        if bad:
+            probs.append((f"task {x} was executed although task {bad[0]}, on whose product it depends, had failed in this build",
+                          ("F31",) if x >= 20000 else ()))
+    return probs
+
+
 def o_dry_inert(cimp, ctx):
     """C10 on projects with directory patterns: a dry run starts no function (generators apart) and creates,
     changes or deletes no file outside .pytask"""
@@ -370,7 +394,7 @@ def reads_writes(tasks, ids):
     for i in ids:
         if 20000 <= i < 30000:
             k = i - 20000
-            reads[i] = {("pat", k // 100)}; writes[i] = {30000 + k}
+            reads[i] = {("pat", k // 100), 10000 + k}; writes[i] = {30000 + k}
         elif 40000 <= i < 50000:
             k = i - 40000
             reads[i] = {30000 + k}; writes[i] = {50000 + k}
